@@ -554,6 +554,11 @@ static void csv_case(vf::Ctx& c, bool tiny)
 		c.op("row 0: " + r0);
 	}
 	// ---- write
+	bool arrayrows = c.rng.chance(0.25);
+	std::vector<char> samerow((size_t)nrows, 0);
+	if (arrayrows)
+		for (int i = 0; i + 1 < nrows; i++)
+			if (c.rng.chance(0.3)) { table[(size_t)i + 1] = table[(size_t)i]; samerow[(size_t)i + 1] = 1; }
 	{
 		int how = c.rng.below(3);
 		Array<String> cols;
@@ -568,6 +573,7 @@ static void csv_case(vf::Ctx& c, bool tiny)
 		c.count(how == 0 ? "csv.write.columns(\"a,b,c\")" : how == 1 ? "csv.write.columns(Array)" : "csv.write.constructor-with-columns");
 		if (!f.ok()) c.fail("csv.open.write", "TabularDataFile is not ok() after columns()");
 		if (c.rng.chance(0.3)) { f.flushEvery(c.rng.range(1, 5)); c.count("csv.write.flushEvery"); }
+		if (!arrayrows)
 		for (int i = 0; i < nrows; i++)
 			for (int j = 0; j < ncols; j++) {
 				const Cell& x = table[i][j];
@@ -576,6 +582,32 @@ static void csv_case(vf::Ctx& c, bool tiny)
 				else if (c.rng.chance(0.5)) f << Var(S(x.s));
 				else f << Var(x.s.c_str());
 			}
+		else {
+			// whole rows handed over as one array Var (operator<< writes an ARRAY as a complete row); the caller keeps its array, and a
+			// row object that is written again must be written again
+			Array<Var> r;
+			Var v;
+			for (int i = 0; i < nrows; i++) {
+				if (!samerow[(size_t)i]) {
+					r = Array<Var>();
+					for (int j = 0; j < ncols; j++) {
+						const Cell& x = table[(size_t)i][(size_t)j];
+						if (x.kind == 0) r << Var(x.i); else if (x.kind == 1) r << Var(x.d); else r << Var(S(x.s));
+					}
+					v = r;
+				} else c.count("csv.write.same-row-object-written-again");
+				f << v;
+				c.count("csv.write.rows-as-array");
+				if (r.length() != ncols || v.length() != ncols)
+					c.fail("csv.array-row.source-changed", vf::fmt("after f << row (an array Var of %d cells) the caller's array has %d and its Var %d elements", ncols, r.length(), v.length()));
+				for (int j = 0; j < ncols; j++) {
+					const Cell& x = table[(size_t)i][(size_t)j];
+					const Var& e = v[j];
+					bool same = x.kind == 0 ? (e.is(Var::INT) && (int)e == x.i) : x.kind == 1 ? (e.is(Var::NUMBER) && ((double)e == x.d || x.d != x.d)) : (e.is(Var::STRING) && bytes_of(e.toString()) == x.s);
+					if (!same) c.fail("csv.array-row.source-changed", vf::fmt("cell %d of the caller's row changed while it was written", j));
+				}
+			}
+		}
 	}
 	Bytes raw;
 	posix_read(path, raw);
